@@ -130,8 +130,8 @@ func (p *PauseController) Wait() (PauseWaitAction, string) {
 	default:
 		select {
 		case <-pauseChannel:
-			verifEvent("gate-wake", p, true)
 			verifYield("req:gate-woken", p)
+			verifEvent("gate-wake", p, true)
 			switch p.GetState() {
 			case PauseStateStopped:
 				return PauseWaitActionStopped, p.GetStopMessage()
